@@ -115,3 +115,11 @@ class ModelSym:
             v = self._rand(name, 0, (1 << width) - 1)
         self.used[name] = v
         return v
+
+
+def uf(name, *args):
+    raise SkipCase()
+
+
+def ufb(name, *args):
+    raise SkipCase()
